@@ -552,6 +552,17 @@ def check (c):
     return dict (status = 'violation' if viol else 'held', sig = sig, nontrivial = bool (nontrivial), monitors = mon, violations = viol)
 # end def check
 
+def lap_cond (l, f):
+    """ condition of evaluating the rational function b (s) / a (s) at s = j w against relative changes of single
+        coefficients (six printed digits): sum of |terms| over |sum of terms|, numerator plus denominator """
+    w = 2 * np.pi * f * 1e6
+    c = 0.0
+    for co in (l ['a'], l ['b']):
+        t = [complex (x) * (1j * w) ** k for k, x in enumerate (co)]
+        c += sum (abs (x) for x in t) / max (abs (sum (t)), 1e-300)
+    return float (c)
+# end def lap_cond
+
 def load_sensitivity (spec, f):
     """ amplification of a relative parameter change in the impedance of the resonant load kinds """
     w = 2 * np.pi * f * 1e6
@@ -565,7 +576,7 @@ def load_sensitivity (spec, f):
             x = w * l ['L'] - 1 / (w * l ['C'])
             amp = max (amp, 3.0 * (w * l ['L'] + 1 / (w * l ['C'])) / max (abs (complex (l.get ('R') or 0.0, x)), 1e-9))
         elif l ['k'] == 'lap':
-            amp = max (amp, 10.0)
+            amp = max (amp, 10.0, 3.0 * lap_cond (l, f))
         elif l ['k'] == 'ins':
             # L' ~ (1 - 1 / eps) ln (b / a): six printed digits of b and eps are amplified by 1 / ln (b / a) and 1 / (eps - 1)
             sc = 1.0
